@@ -155,6 +155,14 @@ def oracle(run: runner.Run, oc: Outcome) -> None:
                               and (rq := by_rid.get(e[3])) is not None and rq.method == 'PATCH'
                               and rq.session.actor == s.actor and rq.attrs.get('name') == name_
                               for e in run.sim.trace)
+                if refused:
+                    # ... unless every handler selected for this cause is finished anyway (by the records in the view
+                    # or by its outcome right now): then the process knows it is done, whatever became of the write
+                    sel = [hid_ for hid_, h_ in hspecs.items() if h_['kind'] == want or
+                           (first_sight and h_['kind'] == 'resume' and (want != 'delete' or h_.get('opts', {}).get('deleted')))]
+                    recs_view = st.records(view)
+                    refused = not all(common.finished(recs_view.get(st.key_name(hid_))) or st.key_name(hid_) in final_now
+                                      for hid_ in sel)
                 if not adjusted and (ran or not unconfirmed) and not open_recs and not refused:
                     pending = [c for c in ran if not changes.final_outcome(c, hspecs.get(c.hid, {}))]
                     if not pending:
